@@ -238,6 +238,20 @@ func Corpus(goPkgBase string, thorough bool) []*File {
 		holder.Extension = append(holder.Extension, ext)
 		add(f, k == "uint32" || k == "enum", "proto2 extension of kind "+k+" declared inside a message")
 	}
+	// --- extensions with declared defaults (GetExtension of an unset extension yields the default on every runtime)
+	{
+		f := newFile("extdefault", "proto2", goPkgBase)
+		f.std()
+		base := f.msg("Base")
+		f.field(base, "id", 1, "int32", lOpt, "", "")
+		base.ExtensionRange = []*descriptorpb.DescriptorProto_ExtensionRange{{Start: proto.Int32(100), End: proto.Int32(200)}}
+		holder := f.msg("Holder")
+		for i, kd := range [][2]string{{"int32", "7"}, {"string", "dflt"}, {"bool", "true"}} {
+			holder.Extension = append(holder.Extension, &descriptorpb.FieldDescriptorProto{Name: proto.String("d_" + kd[0]), Number: proto.Int32(int32(100 + i)),
+				Type: kindType[kd[0]].Enum(), Label: lOpt.Enum(), Extendee: proto.String(f.full("Base")), DefaultValue: proto.String(kd[1])})
+		}
+		add(f, false, "proto2 extensions with [default=...] declared inside a message")
+	}
 	// --- structure
 	{
 		f := newFile("structure", "proto2", goPkgBase)
